@@ -180,6 +180,20 @@ def run(chk):
             reached, res = tracecheck.conform(chk, "stores/TraceStateStoreConc.tla", "stores/TraceStateStoreConc.cfg",
                                               batch, name="trace%d_%d" % (np_, off), workers=4)
             verdicts, _ = fut_o.result()
+            unmatched = [i for i, tr in enumerate(part, 1) if reached.get(i, 0) != len(tr["events"])]
+            reached_design = {}
+            if unmatched and not res.violated:
+                # 2.5: which variant the code follows is decided by replaying: try the design variant
+                sub = {"procs": procs, "dev": False, "traces": [part[i - 1] for i in unmatched]}
+                rd, res2 = tracecheck.conform(chk, "stores/TraceStateStoreConc.tla", "stores/TraceStateStoreConc.cfg",
+                                              sub, name="trace_design%d_%d" % (np_, off), workers=4)
+                for j, i in enumerate(unmatched, 1):
+                    if not res2.violated and rd.get(j, 0) == len(part[i - 1]["events"]):
+                        reached_design[i] = True
+                if reached_design:
+                    chk.note("%d executions follow the design model (Dev_SqliteSetStateNoLock = FALSE), not the "
+                             "as-coded one" % len(reached_design))
+                    chk.add(matched_by_design_model_only=len(reached_design))
             if res.violated:
                 chk.note("conformance: model invariant %s fails on an inferred step of a real trace" % res.violated)
             for i, tr in enumerate(part, 1):
@@ -195,7 +209,7 @@ def run(chk):
                                       tr["backend"], tr["kind"], clause, cause, json.dumps(tr["final"])),
                                   {"backend": tr["backend"], "kind": tr["kind"], "prog": tr["prog"], "schedule": sched,
                                    "ops": tr["ops"], "final": tr["final"], "final_gets": tr["final_gets"]})
-                if reached.get(i, 0) == len(tr["events"]):
+                if reached.get(i, 0) == len(tr["events"]) or reached_design.get(i):
                     matched += 1
                 elif not res.violated and len(chk.notes) < 10:
                     k = reached.get(i, 0)
